@@ -435,6 +435,10 @@ def harness_main(case, fname='w'):
     stated fallback where contract instrumentation is too slow."""
     L = ['int main(void) {']
     assign_atom_offsets(case)
+    if case.mode == 'ATOMS':
+        # the 0/1 product table must be nondeterministic: without --dfcc nothing havocs the (zero-initialised) global,
+        # every product would be 0 and the clauses would hold vacuously
+        L.append('  for (int k = 0; k < VERIF_NWORDS; k++) VERIF_W[k] = nondet_u64();')
     for b in case.bufs:
         c = b.ty.carrier
         L.append('  %s %s[%d]; %s %s_pre[%d];' % (c, b.name, b.n, c, b.name, b.n))
@@ -954,6 +958,33 @@ MODE_ASSUMPTIONS = {
 def chunks(lst, n):
     for i in range(0, len(lst), n): yield lst[i:i + n]
 
+def make_controls(cases, seed):
+    """negative controls (vacuity guard for the whole pipeline): for up to two cases per arithmetic mode, a copy whose first
+    postcondition is deliberately falsified, once under contract enforcement and once in assertion form.  Every control
+    MUST be refuted by the verifier; a control that verifies means the pipeline proves anything (exit 2)."""
+    import copy
+    out = []
+    per_mode = {}
+    rng = random.Random(seed + 77)
+    pool = [c for c in cases if c.ensures and not getattr(c, 'safety_only', False)]
+    rng.shuffle(pool)
+    for c in pool:
+        if per_mode.get(c.mode, 0) >= 2: continue
+        b, k, e = c.ensures[0]
+        if b == 'bool': bad = ('bool', 'NEGATED ' + str(k), e.bnot())
+        elif b.ty.kind == 'float' and c.mode != 'ATOMS': bad = (b, k, -e)
+        elif c.mode == 'ATOMS': bad = (b, k, e + e)
+        elif b.ty.kind == 'bool': bad = (b, k, e.bnot())
+        else: bad = (b, k, e + 1)
+        per_mode[c.mode] = per_mode.get(c.mode, 0) + 1
+        for form in ('dfcc', 'harness'):
+            cc = copy.copy(c)
+            cc.ensures = [bad] + list(c.ensures[1:])
+            cc.cid = c.cid + '#control-' + ('dfcc' if form == 'dfcc' else 'assert')
+            cc.form = form; cc.control = True
+            out.append(cc)
+    return out
+
 def run_property(prop, cases, tier, seed, jobs=None, keep=False, group_size=10, level_note='', extra_evidence=None, quiet=False):
     """run all cases of one property; write evidence/<prop>.json; print VIOLATION / KNOWN-FINDING lines; return exit code."""
     t_start = time.time()
@@ -965,6 +996,9 @@ def run_property(prop, cases, tier, seed, jobs=None, keep=False, group_size=10, 
     for c in cases:
         assert c.cid not in ids, 'duplicate case id ' + c.cid
         ids.add(c.cid)
+    controls = make_controls(cases, seed) if os.environ.get('VERIF_NO_CONTROLS') is None else []
+    real_cases = cases
+    cases = list(cases) + controls
     # group by configuration
     groups = {}
     for c in cases: groups.setdefault(c.cfg.key(), []).append(c)
@@ -992,7 +1026,7 @@ def run_property(prop, cases, tier, seed, jobs=None, keep=False, group_size=10, 
         # replay stage
         rp = []
         for cid, d in results.items():
-            if d['status'] in ('FAIL', 'INAPPLICABLE'):
+            if d['status'] in ('FAIL', 'INAPPLICABLE') and not getattr(bycid[cid], 'control', False):
                 rp.append(ex.submit(stage_replay, (bycid[cid], d, seed)))
         for f in as_completed(rp):
             d = f.result(); results[d['cid']] = d
@@ -1002,9 +1036,16 @@ def run_property(prop, cases, tier, seed, jobs=None, keep=False, group_size=10, 
     t_solver = t_symex = t_cbmc = t_clang = 0.0
     funcs = []; passed = 0; forms = {}; t_wasted = 0.0
     by_mode = {}
+    control_report = []
     for cid in sorted(results, key=natural_key):
         d = results[cid]; c = bycid[cid]
         st = d['status']
+        if getattr(c, 'control', False):
+            ok = st in ('FAIL', 'INAPPLICABLE')
+            control_report.append({'control': cid, 'refuted': ok, 'status': st, 'enforced_by': d.get('form_used'), 'failed': (d.get('failed_names') or [])[:2]})
+            if not ok and st == 'PASS':
+                undecided.append((cid, 'VACUITY: negative control (deliberately false postcondition) was NOT refuted'))
+            continue
         t_solver += d.get('t_solver', 0) or 0; t_symex += d.get('t_symex', 0) or 0; t_cbmc += d.get('t_cbmc', 0) or 0
         t_clang += d.get('t_compile', 0) or 0
         if st in ('PASS', 'FAIL', 'INAPPLICABLE'):
@@ -1068,7 +1109,7 @@ def run_property(prop, cases, tier, seed, jobs=None, keep=False, group_size=10, 
             'checker_cmd': 'clang++-14 <cfg> -S -emit-llvm | tools/ir2c.py | goto-cc | goto-instrument --dfcc main --enforce-contract <entry> | cbmc ' + ' '.join(cbmc_flags(cases[0], 'N')) if cases else '',
             'trusted_base': TRUSTED_BASE,
             'backend': 'cbmc 6.11.0 with --sat-solver %s; contracts enforced by goto-instrument --dfcc' % (case_solver(cases[0]) if cases else 'cadical'),
-            'cases': len(cases), 'cases_proved': passed, 'cases_by_mode': by_mode,
+            'cases': len(real_cases), 'cases_proved': passed, 'cases_by_mode': by_mode,
             'cases_by_enforcement': forms,
             'enforcement_note': 'dfcc = contract enforced by goto-instrument --dfcc (requires/assigns/ensures instrumentation); assertion = the same requires/ensures clauses as assume/assert around a call on exact-extent nondeterministic objects, frame checked as inputs-unchanged + pointer checks (used where the DFCC-instrumented program exceeded the %ds / 4 GB budget)' % DFCC_BUDGET,
             'dfcc_seconds_spent_before_fallback': round(t_wasted, 1),
@@ -1082,6 +1123,8 @@ def run_property(prop, cases, tier, seed, jobs=None, keep=False, group_size=10, 
             'functions_under_contract_total': len(funcs),
             'configurations': sorted({c.cfg.tag() for c in cases}),
             'extraction_drops': DROPPED,
+            'negative_controls': control_report,
+            'negative_controls_note': 'copies of real cases with the first postcondition falsified; each must be refuted (under --dfcc and in assertion form); not counted as obligations',
             'samples': samples,
             'exhaustive': False,
             'explanation': level_note,
@@ -1094,7 +1137,8 @@ def run_property(prop, cases, tier, seed, jobs=None, keep=False, group_size=10, 
     os.makedirs(os.path.join(VERIF, 'evidence'), exist_ok=True)
     json.dump(ev, open(os.path.join(VERIF, 'evidence', prop + '.json'), 'w'), indent=1, default=str)
     log('[%s] %s: cases=%d proved=%d known=%d violations=%d undecided=%d compile_errors=%d obligations=%d discharged=%d wall=%.0fs'
-        % (prop, tier, len(cases), passed, len(known), len(violations), len(undecided), len(compile_errors), n_obl - kn_obl, n_dis - kn_dis, wall))
+        % (prop, tier, len(real_cases), passed, len(known), len(violations), len(undecided), len(compile_errors), n_obl - kn_obl, n_dis - kn_dis, wall)
+        + ' controls_refuted=%d/%d' % (sum(1 for c_ in control_report if c_['refuted']), len(control_report)))
     if not keep: shutil.rmtree(work, ignore_errors=True)
     if violations: return 1
     if compile_errors or undecided:
